@@ -232,6 +232,38 @@ theorem entriesOf_spec {A : Aead} {C : Codec Y} {pw : Option Bytes} {st : RState
   simp only at h1
   simp only [Function.comp, Entry.view, specGen, ← hc, ← hs, ← hmt, h1]
 
+theorem entriesOf_names (st : RState Y) : (entriesOf st).map (·.name) = st.crs.map Prod.fst := by
+  simp only [entriesOf, List.map_map]
+  apply List.map_congr_left
+  intro p _
+  rfl
+
+/-- a successful read of any archive returns what the specification says -/
+theorem read_spec {A : Aead} {C : Codec Y} {pw : Option Bytes} {ms : List Member} {r : Contents Y}
+    (h : read A C pw ms = .ok r) :
+    r.entries.map Entry.view = specEntries A C pw ms ∧ (r.entries.map (·.name)).Nodup ∧
+      specManifest C ms = some (RawManifest.ofManifest r.manifest) := by
+  simp only [read] at h
+  cases hm : readMembers A C pw {} ms with
+  | error e => simp [hm] at h
+  | ok st =>
+    have hI := inv_readMembers ms [] {} st (inv_init A C pw) hm
+    simp only [List.nil_append] at hI
+    simp only [hm, finish] at h
+    cases hmf : st.manifest with
+    | none => simp [hmf] at h
+    | some raw =>
+      simp only [hmf] at h
+      split at h
+      · cases h
+      · obtain ⟨v, t, n, c, e⟩ := raw
+        cases v <;> cases t <;> cases n <;> cases c <;> cases e <;> simp only [reduceCtorEq] at h
+        simp only [Except.ok.injEq] at h
+        subst h
+        refine ⟨entriesOf_spec hI, ?_, ?_⟩
+        · rw [entriesOf_names]; exact hI.nodup
+        · rw [← hI.manifest, hmf]; rfl
+
 /-! ## encrypted members and the reader's password -/
 
 theorem readMembers_no_enc_of_ok_none {A : Aead} {C : Codec Y} :
@@ -249,6 +281,12 @@ theorem readMembers_no_enc_of_ok_none {A : Aead} {C : Codec Y} :
         have hR : decPw readNoPwTest (none : Option Bytes) = none := rfl
         simp [readMember, hcl, hR] at h0
       · exact readMembers_no_enc_of_ok_none ms st1 st' h m hin dn
+
+theorem noEnc_spec {ms : List Member} (h : noEnc ms = true) :
+    ∀ m ∈ ms, ∀ dn, classify m.1 ≠ some (.secEnc, dn) := by
+  intro m hm dn hc
+  have := List.all_eq_true.mp h m hm
+  simp [hc] at this
 
 theorem readMember_pw_irrelevant {A : Aead} {C : Codec Y} (pw pw' : Option Bytes) (st : RState Y) (m : Member)
     (h : ∀ dn, classify m.1 ≠ some (.secEnc, dn)) : readMember A C pw st m = readMember A C pw' st m := by
